@@ -250,4 +250,89 @@ theorem rebuildSwnm_go_new_numbers :
         rw [ih _ _ _ _ _ h, newSwitchNumbers_cons_none s f ids hnone, hc]
         simp [List.take_succ_cons]
 
+/-- invariant: the slot handed to a switch that carried no number holds that switch's name, and nothing placed
+later disturbs it -/
+theorem rebuildSwnm_go_new_slot_holds (C : List Nat) :
+    ∀ (ss : List RSwitch) (free : List Nat) (tbl : List RSwitch) (ids : List (RSwitch × Nat))
+      (out : List RSwitch) (oids : List (RSwitch × Nat)),
+      free.Nodup → (∀ f ∈ free, f ∉ C ∧ f < tbl.length) → (∀ s ∈ ss, ∀ i, s.idx = some i → i ∈ C) →
+      (∀ p ∈ ids, p.1.idx = none → tbl[p.2]? = some ⟨p.1.name, some p.2, 0⟩ ∧ p.2 ∉ free ∧ p.2 ∉ C) →
+      rebuildSwnm.go ss free tbl ids = .ok (out, oids) →
+      ∀ p ∈ oids, p.1.idx = none → out[p.2]? = some ⟨p.1.name, some p.2, 0⟩ := by
+  intro ss
+  induction ss with
+  | nil =>
+    intro free tbl ids out oids _ _ _ hinv h
+    simp only [rebuildSwnm.go, Except.ok.injEq, Prod.mk.injEq] at h
+    obtain ⟨rfl, rfl⟩ := h
+    intro p hp hn
+    exact (hinv p (List.mem_reverse.mp hp) hn).1
+  | cons s rest ih =>
+    intro free tbl ids out oids hfn hfree hss hinv h
+    have hss' : ∀ u ∈ rest, ∀ i, u.idx = some i → i ∈ C := fun u hu => hss u (List.mem_cons_of_mem _ hu)
+    simp only [rebuildSwnm.go] at h
+    split at h
+    · rename_i i hi
+      have hiC : i ∈ C := hss s (by simp) i hi
+      split at h
+      · simp at h
+      · split at h
+        · refine ih free _ _ out oids hfn (by simpa using hfree) hss' ?_ h
+          intro p hp hn
+          rcases List.mem_cons.mp hp with rfl | hp
+          · simp only at hn; rw [hi] at hn; cases hn
+          · obtain ⟨h1, h2, h3⟩ := hinv p hp hn
+            have hne : i ≠ p.2 := fun e => h3 (e ▸ hiC)
+            exact ⟨by rw [List.getElem?_set_ne hne]; exact h1, h2, h3⟩
+        · refine ih free _ _ out oids hfn hfree hss' ?_ h
+          intro p hp hn
+          rcases List.mem_cons.mp hp with rfl | hp
+          · simp only at hn; rw [hi] at hn; cases hn
+          · exact hinv p hp hn
+    · rename_i hnone
+      split at h
+      · simp at h
+      · rename_i f fs
+        have hf : f ∉ fs := (List.nodup_cons.mp hfn).1
+        have hfs : fs.Nodup := (List.nodup_cons.mp hfn).2
+        obtain ⟨hfC, hfl⟩ := hfree f (by simp)
+        refine ih fs _ _ out oids hfs (fun x hx => by simpa using hfree x (List.mem_cons_of_mem _ hx)) hss' ?_ h
+        intro p hp hn
+        rcases List.mem_cons.mp hp with rfl | hp
+        · exact ⟨by simp [hfl], hf, hfC⟩
+        · obtain ⟨h1, h2, h3⟩ := hinv p hp hn
+          have hne : f ≠ p.2 := fun e => h2 (e ▸ List.mem_cons_self)
+          exact ⟨by rw [List.getElem?_set_ne hne]; exact h1, fun hm => h2 (List.mem_cons_of_mem _ hm), h3⟩
+
+/-- **a new switch's slot holds its name**: in a successful switch rebuild, the number handed to a switch that
+carried none is the position of an entry of the emitted table that holds exactly that switch's name -/
+theorem c09_new_switch_slot_holds_its_name {cfg : RichCfg} {secs : List RSection} {order : Option (List Nat)}
+    {tbl : List RSwitch} {ids : List (RSwitch × Nat)}
+    (h : rebuildSwnm cfg secs order = .ok (tbl, ids)) :
+    ∀ p ∈ ids, p.1.idx = none → tbl[p.2]? = some ⟨p.1.name, some p.2, 0⟩ := by
+  have fin : ∀ (ss : List RSwitch),
+      rebuildSwnm.go ss ((List.range cfg.switchSlots).filter fun i => !(ss.filterMap (·.idx)).contains i)
+        ((List.range cfg.switchSlots).map fun i => (⟨.null, some i, 0⟩ : RSwitch)) [] = .ok (tbl, ids) →
+      ∀ p ∈ ids, p.1.idx = none → tbl[p.2]? = some ⟨p.1.name, some p.2, 0⟩ := by
+    intro ss hgo
+    exact rebuildSwnm_go_new_slot_holds (ss.filterMap (·.idx)) ss _ _ [] tbl ids
+      (List.filter_sublist.nodup List.nodup_range)
+      (by intro f hf
+          have hm := List.mem_filter.mp hf
+          refine ⟨?_, by simpa using List.mem_range.mp hm.1⟩
+          have := hm.2
+          simp only [Bool.not_eq_true', List.contains_eq_mem, decide_eq_false_iff_not] at this
+          exact this)
+      (by intro s hs i hi; exact List.mem_filterMap.mpr ⟨s, hs, hi⟩)
+      (by simp) hgo
+  unfold rebuildSwnm at h
+  simp only at h
+  split at h
+  · split at h
+    · simp at h
+    · exact fin _ h
+  · split at h
+    · simp at h
+    · exact fin _ h
+
 end Richchk.Props.C09
